@@ -688,6 +688,25 @@ func TestC18InferAndEquivalences(t *testing.T) {
 						rt.Fatalf("[%s] row %d = %q want %q", class, i, target.Row(i), names[r])
 					}
 				}
+				// The next block announces the same members under the other base (an enum widened by
+				// ALTER): the same target adopts that too - two bytes per value from now on.
+				def16 := "Enum16(" + strings.Join(defParts, ", ") + ")"
+				var vals16 []ref.Val
+				var raws16 []int64
+				for i, n2 := 0, rapid.IntRange(1, 5).Draw(rt, "rows-2"); i < n2; i++ {
+					r := rapid.SampledFrom([]int64{5, -7}).Draw(rt, "raw-2")
+					raws16 = append(raws16, r)
+					vals16 = append(vals16, le(2, r))
+				}
+				decode([]ref.Column{{Name: "e", T: ref.Fixed(def16, 2), Rows: vals16}}, proto.Results{{Name: "e", Data: target}})
+				if string(target.Type()) != def16 || target.Rows() != len(raws16) {
+					rt.Fatalf("[%s] after a block of %q the target used for %q before reports %q and %d rows (want %d)", class, def16, def, target.Type(), target.Rows(), len(raws16))
+				}
+				for i, r := range raws16 {
+					if target.Row(i) != names[r] {
+						rt.Fatalf("[%s] second block (%s after %s): row %d = %q want %q", class, def16, def, i, target.Row(i), names[r])
+					}
+				}
 			case "array-of-enum":
 				arr := proto.NewArray[string](target)
 				var vals []ref.Val
